@@ -231,8 +231,10 @@ def main(argv):
             failures.extend(fin.get("failures", []))
             extra = fin.get("coverage", {})
             if fin.get("harness_error"):
+                # (e.g. nothing could be validated on real processes) - violations found by the shards are still reported;
+                # without one the run counts as broken
                 print("HARNESS-ERROR:", fin["harness_error"])
-                return 2
+                herr = herr or [True]
 
         failures.extend(crash_failures)
         known = load_known()
